@@ -156,7 +156,7 @@ Lemma overlap_slices_some b ny nx large small :
   iymin b < ny /\ ixmin b < nx /\ 0 < iymax b /\ 0 < ixmax b.
 Proof.
   unfold overlap_slices.
-  destruct ((ixmin b >=? nx) || (iymin b >=? ny) || (ixmax b <=? 0) || (iymax b <=? 0)) eqn:E; [discriminate|].
+  destruct ((ixmin b >=? nx) || (iymin b >=? ny) || (ixmax b <=? 0) || (iymax b <=? 0) || (ny <=? 0) || (nx <=? 0)) eqn:E; [discriminate|].
   intros [= <- <-]. cbn [fst snd]. repeat split; lia.
 Qed.
 
@@ -165,7 +165,7 @@ Lemma overlap_slices_none b ny nx :
   forall y x, 0 <= y < ny -> 0 <= x < nx -> ~ (iymin b <= y < iymax b /\ ixmin b <= x < ixmax b).
 Proof.
   unfold overlap_slices.
-  destruct ((ixmin b >=? nx) || (iymin b >=? ny) || (ixmax b <=? 0) || (iymax b <=? 0)) eqn:E; [|discriminate].
+  destruct ((ixmin b >=? nx) || (iymin b >=? ny) || (ixmax b <=? 0) || (iymax b <=? 0) || (ny <=? 0) || (nx <=? 0)) eqn:E; [|discriminate].
   intros _ y x Hy Hx. lia.
 Qed.
 
@@ -1212,8 +1212,8 @@ Lemma overlap_shift_inside b ny nx ny' nx' dy dx :
     end.
 Proof.
   intros. unfold overlap_slices, shift_box, shift_slices. cbn [ixmin ixmax iymin iymax fst snd].
-  destruct ((ixmin b >=? nx) || (iymin b >=? ny) || (ixmax b <=? 0) || (iymax b <=? 0)) eqn:E1; [lia|].
-  destruct ((ixmin b + dx >=? nx') || (iymin b + dy >=? ny') || (ixmax b + dx <=? 0) || (iymax b + dy <=? 0)) eqn:E2; [lia|].
+  destruct ((ixmin b >=? nx) || (iymin b >=? ny) || (ixmax b <=? 0) || (iymax b <=? 0) || (ny <=? 0) || (nx <=? 0)) eqn:E1; [lia|].
+  destruct ((ixmin b + dx >=? nx') || (iymin b + dy >=? ny') || (ixmax b + dx <=? 0) || (iymax b + dy <=? 0) || (ny' <=? 0) || (nx' <=? 0)) eqn:E2; [lia|].
   f_equal. apply f_equal2; apply f_equal2; apply f_equal2; cbn [fst snd]; lia.
 Qed.
 
